@@ -692,6 +692,9 @@ class Engine:
             return K(int(g))
         if g in ("true", "false"):
             return K(g == "true")
+        m2 = _re.fullmatch(r"(?:core::)?([iu](?:8|16|32|64|128|size))::(MAX|MIN)", g)
+        if m2 and m2.group(1) in _INT_RANGE:
+            return K(_INT_RANGE[m2.group(1)][1 if m2.group(2) == "MAX" else 0])       # `{ usize::MAX }` as a const argument
         return None
 
     def binop(self, st, op, a, b, ty):
